@@ -135,6 +135,9 @@ func ResourceYAML(r ResSpec) string {
 			d += "  minReplicas: 2\n"
 		}
 		return fmt.Sprintf("apiVersion: %s\nkind: HorizontalPodAutoscaler\nmetadata:\n  name: %s\n%sspec:\n%s  scaleTargetRef:\n    apiVersion: apps/v1\n    kind: Deployment\n    name: d\n", av, r.Name, anno, d)
+	case "CRD": // a CustomResourceDefinition rendered as an ordinary template (cluster-scoped, typed: strategic three-way patch)
+		tier := []string{"gold", "silver"}[min(r.Variant, 2)-1]
+		return fmt.Sprintf("apiVersion: apiextensions.k8s.io/v1\nkind: CustomResourceDefinition\nmetadata:\n  name: %s\n  labels:\n    tier: %s\n%sspec:\n  group: example.verif\n  names:\n    kind: Crd%s\n    plural: %s\n    singular: thing\n  scope: Namespaced\n", r.Name, tier, anno, r.Name, r.Name)
 	case "ClusterRole": // cluster-scoped (store path /apis/rbac.authorization.k8s.io/v1/clusterroles/<name>)
 		verbs := []string{`["get"]`, `["get", "list"]`}[min(r.Variant, 2)-1]
 		return fmt.Sprintf("apiVersion: rbac.authorization.k8s.io/v1\nkind: ClusterRole\nmetadata:\n  name: %s\n%srules:\n- apiGroups: [\"\"]\n  resources: [\"pods\"]\n  verbs: %s\n", r.Name, anno, verbs)
